@@ -118,6 +118,50 @@ def job_multi(tus, order, cname, cxx, opt, tag):
     return {"kind": "ran", "rc": rc, "results": results, "probes": probes, "stderr": se[-1500:]}
 
 
+def constant_init_rows():
+    """(quantity, unit type, enumerator) for every declared unit, from what the running library reports: the first scalar
+    quantity of each unit type stands for the type.  Returns (rows, unit types without a scalar quantity, crash)."""
+    from props import dumpbase
+    d, crash = dumpbase.get_dump()
+    if crash:
+        return [], [], crash
+    scalar = {}
+    for q in d["quantities"]:
+        m = re.search(r"E = PhQ::Unit::(\w+);", q.get("unit_type_pretty") or "")
+        if m and q["n"] == 1:
+            scalar.setdefault(m.group(1), q["name"])
+    rows, missing = [], []
+    for u in d["unit_types"]:
+        if u["name"] not in scalar:
+            missing.append(u["name"])
+            continue
+        for e in u["enumerators"]:
+            rows.append((scalar[u["name"]], u["name"], e["id"]))
+    return rows, missing, None
+
+
+def job_constant_init(rows, cname, cxx, opt):
+    objs = []
+    for i, (tname, suf) in enumerate(G.NUMERIC):
+        obj, err = compile_tu(cxx, opt, G.constant_init_tu(i, tname, suf, rows), "ci-%s" % suf)
+        if obj is None:
+            return {"kind": "compile-error", "stderr": err[-2500:]}
+        objs.append(obj)
+    mobj, err = compile_tu(cxx, opt, G.constant_init_main(len(objs)), "ci-main")
+    if mobj is None:
+        return {"kind": "compile-error", "stderr": err[-2500:]}
+    exe, err = link(cxx, objs + [mobj], "ci")
+    if exe is None:
+        return {"kind": "link-error", "stderr": err[-2500:]}
+    rc, so, se = sh([exe], timeout=300)
+    out = []
+    for line in so.splitlines():
+        if line.startswith("CI\t"):
+            _, q, ut, en, tn, eq, early, late = (line.split("\t") + [""] * 8)[:8]
+            out.append({"quantity": q, "unit_type": ut, "unit": en, "T": tn, "equal": eq == "1", "early": early, "late": late})
+    return {"kind": "ran", "rc": rc, "ci": out, "stderr": se[-1500:]}
+
+
 def run(tier, seed, flavour="plain"):
     V = core.Verdict("C19", tier, seed)
     V.assumptions = [
@@ -166,13 +210,46 @@ def run(tier, seed, flavour="plain"):
                 if opt == "-O0" and (tier == "thorough" or order == perms[0]):
                     jobs.append(("multi", "multi-tu-all-units order=%s" % (list(order),), False, cname, opt,
                                  (job_multi, (multi_all, order, cname, cxx, opt, "ma"))))
+    ci_rows, ci_missing, crash = constant_init_rows()
+    if crash:
+        V.add_violation("crash|dump|" + core.classify_crash(crash["rc"], crash["stderr_tail"]), crash)
+    for ut in ci_missing:
+        V.inconclusive.append("unit type %s has no scalar quantity to create at compile time" % ut)
+    ci_jobs = []
+    if ci_rows:
+        for cname, cxx in COMPILERS:
+            for opt in opts:
+                ci_jobs.append((cname, opt, (job_constant_init, (ci_rows, cname, cxx, opt))))
     evals = 0
     distinct = set()
     samples = []
     probe_matrix = {}
     programs = 0
+    ci_seen = {}
     with cf.ThreadPoolExecutor(max_workers=core.NCPU) as ex:
         futs = [(j, ex.submit(j[5][0], *j[5][1])) for j in jobs]
+        ci_futs = [(j, ex.submit(j[2][0], *j[2][1])) for j in ci_jobs]
+        for (cname, opt, _), fut in ci_futs:
+            r = fut.result()
+            programs += 1
+            base = "C19|%s|constant-initialisation" % cname
+            if r["kind"] != "ran":
+                V.add_violation(base + "|" + r["kind"], {"optimisation": opt, "stderr": r["stderr"]})
+                continue
+            if r["rc"] not in (0, 3) or len(r["ci"]) != 3 * len(ci_rows):
+                V.add_violation(base, {"optimisation": opt, "what": "terminated before main() finished", "rc": r["rc"],
+                                       "lines": len(r["ci"]), "expected": 3 * len(ci_rows), "stderr": r["stderr"]})
+                continue
+            for c in r["ci"]:
+                evals += 1
+                distinct.add((cname, opt, "ci", c["unit_type"], c["unit"], c["T"]))
+                ci_seen["%s %s" % (cname, opt)] = ci_seen.get("%s %s" % (cname, opt), 0) + 1
+                if not c["equal"]:
+                    V.add_violation("%s|type=%s|unit=%s" % (base, c["unit_type"], c["unit"]),
+                                    {"optimisation": opt, "numeric_type": c["T"], "quantity": c["quantity"],
+                                     "read_by_an_earlier_initialiser": c["early"], "inside_main": c["late"],
+                                     "what": "const Q x = Q::Create<unit>(1.25) at namespace scope was not constant-initialised: an "
+                                             "initialiser that runs earlier read another value than main() does"})
         for (kind, name, uses_dispatch, cname, opt, _), fut in futs:
             r = fut.result()
             programs += 1
@@ -213,6 +290,11 @@ def run(tier, seed, flavour="plain"):
         "facilities_using_runtime_conversion_dispatch": [f[0] for f in disp],
         "optimisation_levels": opts, "link_orders": len(perms),
         "tables_populated_when_user_initialisation_starts": probe_matrix,
+        "constant_initialisation": {
+            "rule": "namespace-scope `const Q late = Q::Create<unit>(1.25)` for every declared unit (first scalar quantity of each unit "
+                    "type) x 3 numeric types, read by an ordinary variable defined before it; the value read must be the value main() reads",
+            "units": len(ci_rows), "objects_compared_per_program": ci_seen,
+        },
     }
     return V.finish()
 
